@@ -150,5 +150,27 @@ def loop_body_effect(fn, cfg, next_bb):
                 via = sorted({o.callee.split("::")[-1] for o in org if o.kind == "call"} | {"a constant" for o in org if o.kind == "const"})
                 return "ordered", "loop body inserts into a map under a key that is not the iterated item itself (computed via %s): items whose keys collide overwrite each other in hash order" % (", ".join(via) or "another value")
     if ordered:
+        # every sequence the body appends to is sorted after the loop (before anything else can look at it)
+        pushes = [fn["blocks"][b]["t"] for b in body if fn["blocks"][b]["t"]["k"] == "call" and re.search(r"std::vec::Vec::<.*>::(push|insert|extend_from_slice)$", fn["blocks"][b]["t"].get("callee") or "")]
+        others = [x for x in ordered if x not in ("push", "insert", "extend_from_slice")]
+        if pushes and not others:
+            def vec_roots(op):
+                return {o.local for o in mir.provenance(fn, du, op, transparent_extra=("std::ops::DerefMut::deref_mut",)) if o.kind in ("local", "arg")} | \
+                       {(o.bb, "call") for o in mir.provenance(fn, du, op, transparent_extra=("std::ops::DerefMut::deref_mut",)) if o.kind == "call"}
+            all_sorted = True
+            for pt in pushes:
+                r = vec_roots(pt["args"][0])
+                found = False
+                for bj, b2 in enumerate(fn["blocks"]):
+                    t2 = b2["t"]
+                    if b2["cleanup"] or t2["k"] != "call" or bj in body:
+                        continue
+                    if re.search(r"::(sort|sort_by|sort_by_key|sort_unstable|sort_unstable_by|sort_unstable_by_key)$", t2.get("callee") or "") \
+                            and cfg.dominates(next_bb, bj) and (vec_roots(t2["args"][0]) & r):
+                        found = True
+                if not found:
+                    all_sorted = False
+            if all_sorted:
+                return "neutral", "loop body appends to a Vec that is sorted after the loop"
         return "ordered", "loop body appends to a sequence (%s)" % ",".join(sorted(set(ordered)))
     return "neutral", "loop body only updates unordered / sorted containers"
